@@ -72,6 +72,22 @@ def audit(db: dict, colnames: dict, expect: dict, viol: list, cnt: dict):
             if bad:
                 v("dangling-agent", table, f"{len(bad)} rows of {table} refer to unknown agent {bad[0][ai]} via {c}")
         cnt[f"rows_{table}"] = cnt.get(f"rows_{table}", 0) + len(rows)
+    # 2b. duplicate-free: one row per natural key (observations are exempt: under the all-visible policy a sensor can observe a target both as the
+    #     primary of one job and serendipitously in another job of the same step)
+    for table, key in (("detected_maneuvers", ("julian_date", "target_id")), ("filterstep", ("julian_date", "target_id")),
+                       ("tasks", ("julian_date", "target_id", "sensor_id")), ("missed_observations", ("julian_date", "sensor_id", "target_id"))):
+        rows = db.get(table, [])
+        if not rows or any(c not in colnames.get(table, []) for c in key):
+            continue
+        idx = [col(table, c) for c in key]
+        seen, dup = set(), []
+        for r in rows:
+            kk = tuple(r[i] for i in idx)
+            if kk in seen:
+                dup.append(kk)
+            seen.add(kk)
+        if dup:
+            v("duplicate-rows", table, f"{len(dup)} of {len(rows)} rows of {table} repeat an earlier row's {key} (e.g. {dup[0]})")
     sfs = db.get("sequential_filter_step", [])
     if sfs:
         fids = {r[col("filterstep", "id")] for r in db.get("filterstep", [])}
